@@ -39,12 +39,12 @@ func c04Replay(h *zz.H, sent []*pb.SubscribeResponse) (state []c04Ent, syncs int
 			found := false
 			for k := range state {
 				if len(state[k].idx) == len(idx) && c04Eq(state[k].idx, idx) {
-					state[k].ts = n.Timestamp
+					state[k].ts = c04Version(n)
 					found = true
 				}
 			}
 			if !found {
-				state = append(state, c04Ent{idx, n.Timestamp})
+				state = append(state, c04Ent{idx, c04Version(n)})
 			}
 		case len(n.Delete) > 0:
 			var keep []c04Ent
@@ -57,6 +57,16 @@ func c04Replay(h *zz.H, sent []*pb.SubscribeResponse) (state []c04Ent, syncs int
 		}
 	}
 	return
+}
+
+// c04Version identifies what a leaf holds: its timestamp and (integer) value together, so that a
+// different value accepted at the same timestamp counts as a change.
+func c04Version(n *pb.Notification) int64 {
+	v := int64(0)
+	if len(n.Update) > 0 {
+		v = n.Update[0].GetVal().GetIntVal()
+	}
+	return n.Timestamp*1000 + v
 }
 
 func c04Eq(a, b []string) bool {
@@ -124,9 +134,12 @@ func VerifC04_Converge(h *zz.H) {
 			c.GnmiUpdate(c04Upd("a", 6))
 		case 4:
 			c.Reset(c05DevA)
-		default: // two updates to one leaf (coalescing)
+		case 5: // two updates to one leaf (coalescing)
 			c.GnmiUpdate(c04Upd("a", 5))
 			c.GnmiUpdate(c04Upd("a", 6))
+		default: // the leaf is rewritten with a different value at the SAME timestamp (the cache accepts it)
+			c.GnmiUpdate(vLeafSpec{target: c05DevA, idx: []string{"a"}}.notification(5, 5))
+			c.GnmiUpdate(vLeafSpec{target: c05DevA, idx: []string{"a"}}.notification(5, 7))
 		}
 	}()
 	h.Quiesce()
@@ -142,7 +155,7 @@ func VerifC04_Converge(h *zz.H) {
 			return nil
 		}
 		if c04Match(q, pth) {
-			cur = append(cur, c04Ent{append([]string{}, pth...), v.(*pb.Notification).Timestamp})
+			cur = append(cur, c04Ent{append([]string{}, pth...), c04Version(v.(*pb.Notification))})
 		}
 		return nil
 	})
